@@ -62,7 +62,7 @@ def run(tier):
         name, keys, vals, cases = b
         work = common.scratch("C09-" + name)
         trace = os.path.join(work, "trace.ndjson")
-        judge.run_driver(binary, "sstdamage", {"keys": concrete.hexkeys(keys), "vals": concrete.hexvals(vals), "dir": work, "cases": cases}, trace, timeout=900)
+        judge.run_driver(binary, "sstdamage", {"keys": concrete.hexkeys(keys), "vals": concrete.hexvals(vals), "dir": work, "cases": cases}, trace, timeout=3000)
         return judge.judge_trace("SSTableTrace.tla", "SSTableTrace.cfg", trace, o, "judge " + name, heap="4g")
 
     res = common.parallel(do, batches)
